@@ -17,6 +17,7 @@ Lemma schedule_counter c : counter_ok c -> counter_ok (schedule c).
 Proof.
   unfold counter_ok, schedule. intro H.
   destruct (writing c); [exact H|].
+  destruct (need_goaway c); [exact H|].
   destruct (need_ack c); [exact H|].
   destruct (zero c) as [|x r] eqn:Ez.
   - destruct (sq c) as [|[i q] r']; simpl.
@@ -38,8 +39,12 @@ Proof.
   intro H. destruct e; simpl; try exact H;
     try (apply write_frame_counter; try apply write_frame_counter; exact H).
   - apply schedule_counter. exact H.
+  - destruct (in_goaway c && (max_sid c <? sid)); [exact H|].
+    apply write_frame_counter, write_frame_counter, H.
+  - destruct (in_goaway c); exact H.
   - destruct (existsb (fun e => fst e =? sid) (sq c)); [|exact H].
     exact (write_frame_counter c 0 (- sid) H).
+  - destruct (in_goaway c); [exact H|]. apply schedule_counter. exact H.
   - apply schedule_counter. exact H.
 Qed.
 
@@ -59,14 +64,14 @@ Qed.
 (* ---------- the bound ---------- *)
 Lemma schedule_queued c : queued (schedule c) <= queued c.
 Proof.
-  unfold schedule. destruct (writing c); [lia|]. destruct (need_ack c); simpl; [lia|].
+  unfold schedule. destruct (writing c); [lia|]. destruct (need_goaway c); simpl; [lia|]. destruct (need_ack c); simpl; [lia|].
   destruct (zero c); simpl.
   - destruct (sq c) as [|[i q] r]; simpl; [destruct (needs_flush c); simpl; lia|lia].
   - lia.
 Qed.
 Lemma schedule_closed c : closed (schedule c) = closed c.
 Proof.
-  unfold schedule. destruct (writing c); [reflexivity|]. destruct (need_ack c); simpl; [reflexivity|].
+  unfold schedule. destruct (writing c); [reflexivity|]. destruct (need_goaway c); simpl; [reflexivity|]. destruct (need_ack c); simpl; [reflexivity|].
   destruct (zero c); simpl; [|reflexivity].
   destruct (sq c) as [|[i q] r]; simpl; [destruct (needs_flush c); reflexivity|reflexivity].
 Qed.
@@ -82,19 +87,27 @@ Lemma handle_queued c e : queued (handle c e) <= queued c + per_iteration_max.
 Proof.
   unfold per_iteration_max. destruct e; simpl; try lia.
   - pose proof (write_frame_queued c 0 id). lia.
-  - pose proof (schedule_queued (mkC (zero c) (sq c) (queued c) (writing c) (needs_flush c) true (closed c) (started c))).
+  - pose proof (schedule_queued (mkC (zero c) (sq c) (queued c) (writing c) (needs_flush c) true (closed c) (started c) (in_goaway c) (need_goaway c) (max_sid c))).
     simpl in *. lia.
-  - pose proof (write_frame_queued c 0 0). pose proof (write_frame_queued (write_frame c 0 0) 0 (- sid)). lia.
+  - destruct (in_goaway c && (max_sid c <? sid)); [lia|].
+    pose proof (write_frame_queued c 0 0). pose proof (write_frame_queued (write_frame c 0 0) 0 (- sid)). lia.
+  - destruct (in_goaway c); simpl; lia.
   - pose proof (write_frame_queued c sid tag). lia.
   - pose proof (write_frame_queued c 0 tag). lia.
   - destruct (existsb (fun e => fst e =? sid) (sq c)); simpl; [|lia]. pose proof (write_frame_queued c 0 (- sid)). lia.
-  - pose proof (schedule_queued (mkC (zero c) (sq c) (queued c) false (needs_flush c) (need_ack c) (closed c) (started c))).
+  - destruct (in_goaway c); [lia|].
+    pose proof (schedule_queued (mkC (zero c) (sq c) (queued c) (writing c) (needs_flush c) (need_ack c) (closed c) (started c) true true (max_sid c))).
+    simpl in *. lia.
+  - pose proof (schedule_queued (mkC (zero c) (sq c) (queued c) false (needs_flush c) (need_ack c) (closed c) (started c) (in_goaway c) (need_goaway c) (max_sid c))).
     unfold wrote_frame. simpl in *. lia.
 Qed.
 Lemma handle_closed c e : closed (handle c e) = closed c.
 Proof.
   destruct e; simpl; rewrite ?write_frame_closed, ?schedule_closed; try reflexivity.
+  - destruct (in_goaway c && (max_sid c <? sid)); [reflexivity|]. rewrite !write_frame_closed. reflexivity.
+  - destruct (in_goaway c); reflexivity.
   - destruct (existsb (fun e => fst e =? sid) (sq c)); simpl; [apply write_frame_closed|reflexivity].
+  - destruct (in_goaway c); [reflexivity|]. rewrite schedule_closed. reflexivity.
   - unfold wrote_frame. rewrite schedule_closed. reflexivity.
 Qed.
 
@@ -222,11 +235,11 @@ Qed.
 
 Lemma apply_cop_good limit o st : good limit (fst st) -> good limit (fst (apply_cop limit o st)).
 Proof.
-  intro H. destruct o; simpl; [apply rep_events_good, H| | | |exact H]; repeat apply iteration_good; exact H.
+  intro H. destruct o; simpl; try (destruct (in_goaway (fst st)); simpl); try exact H; try (apply rep_events_good, H); repeat apply iteration_good; exact H.
 Qed.
 Lemma apply_cop_closed limit o st : closed (fst st) = true -> closed (fst (apply_cop limit o st)) = true.
 Proof.
-  intro H. destruct o; simpl; [apply rep_events_closed, H| | | |exact H]; repeat apply iteration_closed_mono; exact H.
+  intro H. destruct o; simpl; try (destruct (in_goaway (fst st)); simpl); try exact H; try (apply rep_events_closed, H); repeat apply iteration_closed_mono; exact H.
 Qed.
 
 Lemma sample_step limit wc c r :
@@ -249,9 +262,9 @@ Proof.
   intro H. unfold drain.
   set (c1 := iteration limit c (EPing MARKER)).
   assert (H1 : good limit c1) by (apply iteration_good, H).
-  set (c0 := mkC (zero c1) (sq c1) (queued c1) (writing c1) (needs_flush c1) (need_ack c1) (closed c1) []).
+  set (c0 := mkC (zero c1) (sq c1) (queued c1) (writing c1) (needs_flush c1) (need_ack c1) (closed c1) [] (in_goaway c1) (need_goaway c1) (max_sid c1)).
   assert (H0 : good limit c0) by exact H1.
-  generalize (repeat tt (length (zero c0) + Z.to_nat (sq_total (sq c0)) + 4)) as l.
+  generalize (repeat tt (length (zero c0) + Z.to_nat (sq_total (sq c0)) + 6)) as l.
   intro l. revert H0. generalize c0. induction l as [|x l IH]; intros c2 H2; simpl; [exact H2|].
   apply IH, iteration_good, H2.
 Qed.
@@ -260,9 +273,9 @@ Proof.
   intro H. unfold drain.
   set (c1 := iteration limit c (EPing MARKER)).
   assert (H1 : closed c1 = true) by (apply iteration_closed_mono, H).
-  set (c0 := mkC (zero c1) (sq c1) (queued c1) (writing c1) (needs_flush c1) (need_ack c1) (closed c1) []).
+  set (c0 := mkC (zero c1) (sq c1) (queued c1) (writing c1) (needs_flush c1) (need_ack c1) (closed c1) [] (in_goaway c1) (need_goaway c1) (max_sid c1)).
   assert (H0 : closed c0 = true) by exact H1.
-  generalize (repeat tt (length (zero c0) + Z.to_nat (sq_total (sq c0)) + 4)) as l.
+  generalize (repeat tt (length (zero c0) + Z.to_nat (sq_total (sq c0)) + 6)) as l.
   intro l. revert H0. generalize c0. induction l as [|x l IH]; intros c2 H2; simpl; [exact H2|].
   apply IH, iteration_closed_mono, H2.
 Qed.
@@ -367,3 +380,41 @@ Lemma ex_drain_input :
   let i := VL [VZ 10; VZ 2; VL [VL [VZ 1; VZ 3]; VL [VZ 4; VZ 1; VZ 77]; VL [VZ 7]]] in
   run_C37 i = VL [vLZ [0;0;0;0]; vLZ [3;3;0;0]; vLZ [5;5;0;0]; VL [VZ 7; vLZ [1;2;3;0;-77;MARKER]]; vLZ [0;0;0;0]].
 Proof. vm_compute. reflexivity. Qed.
+
+(* graceful shutdown does not switch the accounting off: after GOAWAY(NO_ERROR) a flood against the blocked writer is
+   still counted and still closes the connection at limit + 1 *)
+Lemma flood_closes_goaway limit ids :
+  0 <= limit -> limit < Z.of_nat (length ids) ->
+  let c := run_events limit conn_blocked (EGoAway :: map EPing ids) in
+  closed c = true /\ queued c = limit + 1 /\ Z.of_nat (length (zero c)) = limit + 1 /\ in_goaway c = true.
+Proof.
+  intros H0 Hl. cbv zeta. cbn [run_events fold_left].
+  assert (E : iteration limit conn_blocked EGoAway
+              = mkC [] [] 0 true false false false [] true true 0).
+  { unfold iteration. cbn. destruct (limit <? 0) eqn:El; [apply Z.ltb_lt in El; lia|reflexivity]. }
+  rewrite E. set (c1 := mkC [] [] 0 true false false false [] true true 0).
+  pose proof (flood_blocked limit ids c1 eq_refl eq_refl) as F. simpl queued in F. specialize (F H0). cbv zeta in F.
+  destruct (limit <? 0 + Z.of_nat (length ids)) eqn:El; [|apply Z.ltb_ge in El; lia].
+  destruct F as [A B]. unfold run_events in *. split; [exact A|]. split; [exact B|].
+  pose proof (counter_is_queue_length limit (map EPing ids) c1 eq_refl) as K. unfold counter_ok, run_events in K.
+  split; [rewrite <- K; exact B|].
+  clear -c1. generalize (map EPing ids) as evs. intro evs.
+  assert (G : forall evs c, in_goaway c = true -> in_goaway (fold_left (iteration limit) evs c) = true).
+  { induction evs0 as [|e r IH]; intros c Hc; [exact Hc|]. simpl. apply IH.
+    unfold iteration. destruct (closed c); [exact Hc|].
+    assert (Hh : in_goaway (handle c e) = true).
+    { assert (Hs : forall x, in_goaway (schedule x) = in_goaway x).
+      { intro x. unfold schedule. destruct (writing x); [reflexivity|]. destruct (need_goaway x); [reflexivity|].
+        destruct (need_ack x); [reflexivity|]. destruct (zero x); [|reflexivity].
+        destruct (sq x) as [|[i q] r0]; [destruct (needs_flush x); reflexivity|reflexivity]. }
+      assert (Hw : forall x st tag, in_goaway (write_frame x st tag) = in_goaway x)
+        by (intros x st tag; unfold write_frame; rewrite Hs; destruct (st =? 0); reflexivity).
+      destruct e; simpl; rewrite ?Hw, ?Hs; try exact Hc.
+      - destruct (in_goaway c && (max_sid c <? sid)); [exact Hc|]. rewrite !Hw. exact Hc.
+      - rewrite Hc. exact Hc.
+      - destruct (existsb (fun e0 => fst e0 =? sid) (sq c)); [simpl; rewrite Hw; exact Hc|exact Hc].
+      - rewrite Hc. exact Hc.
+      - unfold wrote_frame. rewrite Hs. exact Hc. }
+    destruct (limit <? queued (handle c e)); exact Hh. }
+  apply G. reflexivity.
+Qed.
